@@ -486,3 +486,27 @@ def c05_thin_cost_rt(ctx, shape, weighted):
         wr = solver("newton", grid, base_options(l1_mode=W.L1Mode.RAVIART_THOMAS, formulation="full"),
                     darsia.Image(cw[::-1].copy(), space_dim=1, scalar=True, dimensions=[shape[0] * h[0]]) if weighted else None)
         ctx.ensure("reversing the order of the cells does not change the cost", abs(float(wr.l1_dissipation(-q[::-1])) - got) <= 1e-11 * max(1.0, abs(got)))
+
+
+@ob("C05.moment_bound", cases=[dict(shape=s, l1=l, weighted=wt) for s in [(3,), (5,), (2, 1), (1, 3), (1, 1, 3)] for l in ("CONSTANT_CELL_PROJECTION", "CONSTANT_SUBCELL_PROJECTION") for wt in (False,)],
+    mods=["darsia.measure.wasserstein", "darsia.utils.fv"], stubs=STEP_STUBS, funcs=FUNCS, samples=(2, 4), budget={"timeout_ms": 20000, "decide_ms": 1500},
+    cite="never smaller than ... the length of the displacement of the first moment of the mass",
+    note="for EVERY flux u on a thin grid (not only the one a solver returns): cost(u)^2 >= |sum_c x_c (div u)_c|^2, the squared first-moment displacement of the mass difference u "
+         "transports - the real l1_dissipation and the real divergence on symbolic fluxes.  On grids with two extended axes the statement is the triangle inequality for the cell "
+         "fluxes, which z3 does not discharge (tried: unknown after 45 s on 2x2); there it rests on the Lean lemma quadrature_lower_bound and on the bounded C05.metric")
+def c05_moment_bound(ctx, shape, l1, weighted):
+    grid, h = grid_of(shape)
+    dim = len(shape)
+    w = solver("newton", grid, base_options(l1_mode=W.L1Mode[l1], formulation="full"))
+    q = ctx.array("q", (int(grid.num_faces),), sample=(-2.0, 2.0))
+    cost = w.l1_dissipation(q)
+    b = w.div.dot(q)
+    m2 = 0
+    for d in range(dim):
+        s = 0
+        for c in range(int(grid.num_cells)):
+            v = np.unravel_index(c, shape, order="F")
+            s = s + (v[d] + 0.5) * h[d] * b[c]
+        m2 = m2 + s * s
+    ctx.ensure("cost >= 0", cost >= 0)
+    ctx.ensure("cost^2 >= |first-moment displacement of the transported mass difference|^2", cost * cost >= m2)
